@@ -773,7 +773,7 @@ def simulation_date(rng, spec, kind=None):
     if kind == "naive":
         return t.isoformat(), kind
     tz = gen.timezone_of(zone)
-    aware = tz.localize(t, is_dst=True)
+    aware = tz.localize(t, is_dst=True) if hasattr(tz, "localize") else t.replace(tzinfo=tz)
     return aware.isoformat(), kind
 
 
